@@ -3,5 +3,5 @@
 import sys,re
 s=open(sys.argv[1]).read()
 for fn in sys.argv[2:]:
-    m=re.search(r'^[^\n;]*\b'+re.escape(fn)+r'\([^\n;]*\)\nCONTRACT\('+re.escape(fn)+r'\)\n\{.*?\n\}\n', s, re.S|re.M)
+    m=re.search(r'^[^\n;]*\b'+re.escape(fn)+r'\([^\n;]*\)\n#ifdef USE_CONTRACT_\w+\nCONTRACT\('+re.escape(fn)+r'\)\n#endif\n\{.*?\n\}\n', s, re.S|re.M)
     print(m.group(0) if m else f'-- {fn}: not found')
